@@ -501,6 +501,22 @@ func groupElementMatchers(P *Program, subj func(string) bool, modulus string) (l
 	return
 }
 
+// invertibleMatcher: a guard that establishes gcd(x, N) == 1 for the big.Int described by subj.
+func invertibleMatcher(P *Program, subj func(string) bool, modulus string) func(a Atom) bool {
+	return func(a Atom) bool {
+		g, ok := P.guardOf(a)
+		if !ok || g.Kind != "big" || g.Rel != "==" || !g.Bound.equal(tconst(1)) {
+			return false
+		}
+		c, isCall := g.SubjV.(*ssa.Call)
+		if !isCall || bigMethod(c) != "GCD" || len(callArgs(c)) != 5 {
+			return false
+		}
+		x, y := desc(callArgs(c)[3]), desc(callArgs(c)[4])
+		return (subj(x) && y == modulus) || (subj(y) && x == modulus)
+	}
+}
+
 func rangeGroupElementsRule(P *Program, R *Report, rule string) {
 	fn := mustFunc(P, R, rule, kRPVerify)
 	if fn == nil {
